@@ -483,12 +483,16 @@ func extractTable(p *Program, fn *ssa.Function) *tableFn {
 	info := p.Info(fn)
 	sig := fn.Signature
 	t := &tableFn{fn: fn, fd: fd, info: info, side: map[types.Object]string{}, clause: map[string]*ast.CaseClause{}}
-	t.opObj, t.lObj, t.rObj = sig.Params().At(0), sig.Params().At(1), sig.Params().At(2)
+	oi, li, ri, lvi, rvi, okp := tableParams(sig)
+	if !okp {
+		return nil
+	}
+	t.opObj, t.lObj, t.rObj = sig.Params().At(oi), sig.Params().At(li), sig.Params().At(ri)
 	t.side[t.lObj], t.side[t.rObj] = "L", "R"
-	// the operands' values handed in by the dispatcher, already converted: a
-	// fourth and fifth parameter of one numeric type
-	if sig.Params().Len() == 5 {
-		p3, p4 := sig.Params().At(3), sig.Params().At(4)
+	// the operands' values handed in by the dispatcher, already converted: two
+	// more parameters of one numeric type
+	if lvi >= 0 {
+		p3, p4 := sig.Params().At(lvi), sig.Params().At(rvi)
 		if b3, ok := p3.Type().Underlying().(*types.Basic); ok && types.Identical(p3.Type(), p4.Type()) {
 			t.side[p3], t.side[p4] = "L", "R"
 			switch {
@@ -704,6 +708,10 @@ func dispatcherPairs(p *Program, a *anchors, t *tableFn) []string {
 					if !ok || len(ce.Args) != 5 || seenCall[ce] {
 						return true
 					}
+					_, _, _, lvi, rvi, okp := tableParams(t.fn.Signature)
+					if !okp || lvi < 0 {
+						return true
+					}
 					f, ok := calleeObj(info, ce).(*types.Func)
 					if !ok || t.fn.Object() != types.Object(f) {
 						return true
@@ -716,8 +724,8 @@ func dispatcherPairs(p *Program, a *anchors, t *tableFn) []string {
 						}
 						return valueOf(e)
 					}
-					l, ok1 := get(ce.Args[3])
-					rr, ok2 := get(ce.Args[4])
+					l, ok1 := get(ce.Args[lvi])
+					rr, ok2 := get(ce.Args[rvi])
 					if ok1 && ok2 && l.side == "L" && rr.side == "R" {
 						out = append(out, l.typ+"/"+rr.typ)
 					}
@@ -737,10 +745,11 @@ func dispatcherPairs(p *Program, a *anchors, t *tableFn) []string {
 			continue
 		}
 		sig := g.Signature
-		if sig.Params().Len() < 3 {
+		_, gl, gr, _, _, okp := tableParams(sig)
+		if !okp {
 			continue
 		}
-		scan(p.FuncDecl(g), p.Info(g), sig.Params().At(1), sig.Params().At(2))
+		scan(p.FuncDecl(g), p.Info(g), sig.Params().At(gl), sig.Params().At(gr))
 	}
 	return out
 }
@@ -2026,4 +2035,52 @@ func opcodeVarValues(p *Program, info *types.Info, f *ast.File, e ast.Expr) ([]s
 	}
 	sort.Strings(out)
 	return out, true
+}
+
+// tableParams: the positions of an operator table's parameters — the opcode,
+// the two operand objects (left, right) and, when the caller hands the
+// operands' values over as well, those (left, right; one numeric type) — in
+// whatever order the signature lists them.
+func tableParams(sig *types.Signature) (op, l, r, lv, rv int, ok bool) {
+	op, l, r, lv, rv = -1, -1, -1, -1, -1
+	ps := sig.Params()
+	for i := 0; i < ps.Len(); i++ {
+		t := ps.At(i).Type()
+		switch {
+		case isOpcodeType(t):
+			if op >= 0 {
+				return 0, 0, 0, 0, 0, false
+			}
+			op = i
+		case isObjectIface(t):
+			switch {
+			case l < 0:
+				l = i
+			case r < 0:
+				r = i
+			default:
+				return 0, 0, 0, 0, 0, false
+			}
+		default:
+			b, isB := t.Underlying().(*types.Basic)
+			if !isB || b.Info()&types.IsNumeric == 0 {
+				return 0, 0, 0, 0, 0, false
+			}
+			switch {
+			case lv < 0:
+				lv = i
+			case rv < 0:
+				rv = i
+			default:
+				return 0, 0, 0, 0, 0, false
+			}
+		}
+	}
+	if op < 0 || l < 0 || r < 0 || (lv >= 0) != (rv >= 0) {
+		return 0, 0, 0, 0, 0, false
+	}
+	if lv >= 0 && !types.Identical(ps.At(lv).Type(), ps.At(rv).Type()) {
+		return 0, 0, 0, 0, 0, false
+	}
+	return op, l, r, lv, rv, true
 }
